@@ -305,6 +305,8 @@ def _loop_append(s):
     """`for t in it: [if c:] X.append(e)` (X any receiver that does not depend on the loop)  ->  `X.extend(e for t in it if c)`"""
     if not isinstance(s, ast.For) or s.orelse:
         return s
+    if isinstance(s.iter, (ast.Tuple, ast.List)) and not any(isinstance(e, ast.Starred) for e in s.iter.elts):
+        return s            # a loop over a display is unrolled, entry by entry
     fb = _loop_filter_body(s.body)
     if fb is None:
         return s
@@ -720,6 +722,15 @@ def _search_loops(stmts: list) -> list:
     while changed:
         changed = False
         for j, s in enumerate(out):
+            if isinstance(s, ast.For) and s.orelse and len(s.body) == 1 and isinstance(s.body[0], ast.If) and not s.body[0].orelse \
+                    and len(s.body[0].body) == 1 and isinstance(s.body[0].body[0], ast.Break) \
+                    and not any(mentions(t, s.orelse) for t in _target_names(s.target)):
+                # `for t in it: if c: break` / `else: S`  ->  `if not any(c for t in it): S`
+                gen0 = ast.comprehension(target=s.target, iter=s.iter, ifs=[], is_async=0)
+                found = ast.Call(func=ast.Name(id='any', ctx=ast.Load()), args=[ast.GeneratorExp(elt=s.body[0].test, generators=[gen0])], keywords=[])
+                out[j] = at(ast.If(test=ast.UnaryOp(op=ast.Not(), operand=found), body=list(s.orelse), orelse=[]), s)
+                changed = True
+                break
             if not isinstance(s, ast.For) or s.orelse:
                 continue
             body = list(s.body)
@@ -2072,9 +2083,8 @@ class Normalizer:
                     return [ast.Tuple(elts=[k, v], ctx=ast.Load()) for k, v in zip(t.keys, t.values)]
                 return list(t.keys if it.func.attr == 'keys' else t.values)
             return None
-        if isinstance(it, (ast.Tuple, ast.List)) and 0 < len(it.elts) <= 8 and not any(isinstance(e, ast.Starred) for e in it.elts) \
-                and all(_atomic(e) or (isinstance(e, (ast.Tuple, ast.List)) and all(_atomic(x) for x in e.elts)) for e in it.elts):
-            return list(it.elts)        # a loop over a literal tuple of names / constants
+        if isinstance(it, (ast.Tuple, ast.List)) and 0 < len(it.elts) <= 8 and not any(isinstance(e, ast.Starred) for e in it.elts):
+            return list(it.elts)        # a loop over a display: entries that are not names / constants are bound to temporaries
         t = self.const_table(it, fi)
         if isinstance(t, (ast.Tuple, ast.List)):
             return list(t.elts)
@@ -2089,6 +2099,22 @@ class Normalizer:
         if entries is None:
             return None
         out = []
+        if isinstance(s.iter, (ast.Tuple, ast.List)):
+            # the display is evaluated once, before the first iteration
+            bound = []
+            taken = {n.id for n in ast.walk(ast.Module(body=fi.node.body, type_ignores=[])) if isinstance(n, ast.Name)}
+            for k, e in enumerate(entries):
+                if _atomic(e) or (isinstance(e, (ast.Tuple, ast.List)) and all(_atomic(x) for x in e.elts)):
+                    bound.append(e)
+                    continue
+                base = s.target.id if isinstance(s.target, ast.Name) else 'entry'
+                name = f'{base}_{k + 1}'
+                while name in taken:
+                    name = '_' + name
+                taken.add(name)
+                out.append(at(ast.Assign(targets=[ast.Name(id=name, ctx=ast.Store())], value=e), s))
+                bound.append(ast.Name(id=name, ctx=ast.Load()))
+            entries = bound
         for e in entries:
             mapping = {}
             if isinstance(s.target, ast.Name):
